@@ -1820,6 +1820,27 @@ pub fn assoc_import_set(rng: &mut Rng) -> ModuleSet {
         oid: None,
     };
     let a = MModule { name: "Mq1".into(), tagging: Tagging::Automatic, ext_implied: false, imports: vec![], assigns: a_assigns, oid: if rng.chance(1, 2) { Some(1) } else { None } };
+    if rng.chance(1, 5) {
+        // the governing types live in the importing module itself and the values, in Mq3, name them module-qualified
+        // (`vq30 Mq2.Tq10 ::= 1`): the associated type of an imported value is then a type of the importer's own
+        let mut b = b;
+        let (types, values): (Vec<Assign>, Vec<Assign>) = a.assigns.into_iter().partition(|x| matches!(x, Assign::Type { .. }));
+        let type_names: Vec<String> = types.iter().map(|t| t.name().to_string()).collect();
+        let values: Vec<Assign> = values
+            .into_iter()
+            .map(|v| match v {
+                Assign::Value { name, ty: Ty { kind: TyKind::Ref { name: tn, .. }, .. }, val } => Assign::Value { name, ty: Ty::plain(TyKind::Ref { module: Some("Mq2".into()), name: tn }), val },
+                other => other,
+            })
+            .collect();
+        b.assigns.extend(types);
+        for (from, syms) in b.imports.iter_mut() {
+            *from = "Mq3".into();
+            syms.retain(|s| !type_names.contains(s));
+        }
+        let v = MModule { name: "Mq3".into(), tagging: Tagging::Automatic, ext_implied: false, imports: vec![], assigns: values, oid: None };
+        return ModuleSet { modules: vec![b, v] };
+    }
     if rng.chance(1, 3) {
         // three modules: the values live in Mq3, their governing types in Mq1; Mq2 imports the values (from Mq3) only, so the
         // associated types come from a module Mq2 has no IMPORTS clause for
